@@ -16,7 +16,7 @@ func c08NumCases(env *core.Env) int {
 	if env.Thorough() {
 		return 25000
 	}
-	return 900
+	return 4000
 }
 
 func c08World(env *core.Env, idx int) *gen.World {
@@ -173,6 +173,18 @@ func c08Run(env *core.Env, idx int) core.CaseResult {
 					continue
 				}
 				cl := "continue-mode " + mismatchClass(fmt.Sprintf("%s %s%s: %s (input", st.Kind, st.St.Ptr, m.Path, m.Reason))
+				if m.Via != "" {
+					cl = "continue-mode " + st.Kind + ": unresolvable $ref not left verbatim"
+					// attribution: the verbatim text, once it sits in the root document, designates an existing object when read from the
+					// root's directory (same file name in two directories): a later local reference to the expanded element re-reads it there
+					if t, err := oracle.RefTarget(w.Root, m.Via); err == nil {
+						if n, ok := in.Lookup(t); ok {
+							if _, isObj := n.(map[string]interface{}); isObj {
+								cl = "continue-mode: verbatim unresolvable $ref re-read from the root's directory, where the same text designates another document"
+							}
+						}
+					}
+				}
 				if seen[cl] {
 					continue
 				}
